@@ -43,7 +43,7 @@ fn single(class: &str, text: String) -> Input
 // ---------------------------------------------------------------------------------------------
 // Layouts
 
-pub const LAYOUTS: [&str; 6] = ["as written", "CRLF line ends", "no final newline", "multi-byte comment first", "multi-byte comment before every line", "spaces for tabs"];
+pub const LAYOUTS: [&str; 7] = ["as written", "CRLF line ends", "no final newline", "multi-byte comment first", "multi-byte comment before every line", "spaces for tabs", "one lexeme per line"];
 const COMMENT: &str = "// h\u{e9}llo \u{20ac} \u{1f600}";
 
 /// Returns the new text and the mapping of line numbers, or None when the layout does not apply.
@@ -92,6 +92,27 @@ fn relayout(text: &str, layout: usize) -> Option<(String, Box<dyn Fn(usize) -> u
 			}
 			Some((out, Box::new(|l| 2 * l)))
 		}
+		6 =>
+		{
+			// every lexeme on its own line (comments are dropped); only for texts without
+			// illegal lexemes, and the line numbers are not comparable with the original
+			if text.is_empty()
+			{
+				return None;
+			}
+			let toks = reflex::lex(text.as_bytes());
+			if toks.is_empty() || toks.iter().any(|t| matches!(t.kind, RKind::Err { .. }))
+			{
+				return None;
+			}
+			let mut out = String::new();
+			for t in &toks
+			{
+				out.push_str(&text[t.start..t.end]);
+				out.push('\n');
+			}
+			Some((out, Box::new(|_| 0)))
+		}
 		_ =>
 		{
 			if !text.contains('\t')
@@ -115,26 +136,8 @@ fn relayout(text: &str, layout: usize) -> Option<(String, Box<dyn Fn(usize) -> u
 
 fn normalise_span_text(t: &str) -> String
 {
-	let t = t.replace(COMMENT, "").replace('\r', "");
-	let mut out = String::new();
-	let mut space = false;
-	for c in t.chars()
-	{
-		if c.is_whitespace()
-		{
-			space = true;
-		}
-		else
-		{
-			if space && !out.is_empty()
-			{
-				out.push(' ');
-			}
-			space = false;
-			out.push(c);
-		}
-	}
-	out
+	// layouts change the white space between the lexemes of a span, never the lexemes
+	t.replace(COMMENT, "").chars().filter(|c| !c.is_whitespace()).collect()
 }
 
 // ---------------------------------------------------------------------------------------------
@@ -1047,7 +1050,7 @@ fn judge_input(input: &Input, cat: &BTreeSet<u16>, w: &mut WorkerCtx, hasher: &m
 				{
 					// "covers": the span must contain the offender (alignment with lexemes and
 					// stability across layouts are judged separately)
-					if !text_under.contains(want.as_str())
+					if !normalise_span_text(&text_under).contains(normalise_span_text(want).as_str())
 					{
 						w.result.violation(&format!("span-does-not-cover-offender:{letter}{}", d.code), size, &desc, || {
 							format!("{}: {letter}{} covers {:?} ({}:{}, span {}..{}), the offending text is {:?} ({})\n{}", input.class, d.code, text_under, d.file, d.line, d.span_start, d.span_end, want, LAYOUTS[layout], show())
@@ -1137,6 +1140,8 @@ fn judge_input(input: &Input, cat: &BTreeSet<u16>, w: &mut WorkerCtx, hasher: &m
 			Some(b) =>
 			{
 				let expect: Vec<(u16, String, String, usize)> = b.iter().map(|(c, f, t, l)| { let fi = files.iter().position(|x| &x.0 == f).unwrap_or(0); (*c, f.clone(), t.clone(), maps[fi](*l)) }).collect();
+				// with one lexeme per line only codes and covered text are comparable
+				let mapped: Vec<(u16, String, String, usize)> = if layout == 6 { mapped.into_iter().map(|(c, f, t, _)| (c, f, t, 0)).collect() } else { mapped };
 				if expect != mapped
 				{
 					let kind = if expect.len() != mapped.len() || expect.iter().zip(mapped.iter()).any(|(a, b)| a.0 != b.0) { "codes" } else if expect.iter().zip(mapped.iter()).any(|(a, b)| a.2 != b.2) { "text" } else { "line" };
